@@ -368,7 +368,7 @@ func main() {
 		hist = append(hist, ops)
 	}
 
-	wd := vh.NewWatchdog(rep, 10*time.Second)
+	wd := vh.NewWatchdog(rep, 180*time.Second)
 	var terms []string
 	for idx, ops := range hist {
 		wd.Beat(ops)
